@@ -269,6 +269,23 @@ for path in sorted(_glob.glob(os.path.join(SRC, "**", "*.rs"), recursive=True)):
         if bad:
             brk("lint L5 (log purity): argument of %s! in src/%s calls %s" % (m.group(1), name, ", ".join(sorted(set(bad)))), "C15")
 
+# L6 debug assertions are checks, not code: their arguments are not evaluated in release builds (what `cargo install`
+# builds), so they must be pure - the same rule as for log macros
+for path in sorted(_glob.glob(os.path.join(SRC, "**", "*.rs"), recursive=True)):
+    name = os.path.relpath(path, SRC)
+    if name == "verif_hooks.rs":
+        continue
+    body = strip_tests(open(path).read())
+    for m in re.finditer(r"\bdebug_assert(?:_eq|_ne)?!\s*\(", body):
+        i, d = m.end(), 1
+        while i < len(body) and d > 0:
+            d += {"(": 1, ")": -1}.get(body[i], 0)
+            i += 1
+        args = re.sub(r'"(?:[^"\\]|\\.)*"', '""', body[m.end():i - 1])
+        bad = [c for c in re.findall(r"\.([a-z_0-9]+)\(", args) if c not in PURE_IN_LOG | {"is_none", "is_some", "contains", "contains_key", "all", "any", "is_finite", "is_nan", "abs"}]
+        if bad:
+            brk("lint L6 (debug assertions are pure): argument of a debug_assert in src/%s calls %s (not evaluated in release builds)" % (name, ", ".join(sorted(set(bad)))), "*")
+
 # L1 panic-site inventory: compared with the committed expectation
 sites = {}
 for name in sorted(os.listdir(SRC)) if os.path.isdir(SRC) else []:
